@@ -7,6 +7,11 @@ import OV.Lemmas.C01SimNest
 import OV.Lemmas.C01SimSLT
 import OV.Model.C01Env
 import OV.Lemmas.C01ExportSem
+import OV.Lemmas.C01Eager
+import OV.Lemmas.C01EagerRefuse
+import OV.Lemmas.C01EagerEntry
+import OV.Lemmas.C01Separate
+import OV.Lemmas.C01SeparateVar
 /-!
 # C01 — script functions mean the same eagerly, as an ONNX graph, and as plain Python
 
@@ -927,5 +932,212 @@ theorem castable_lost_at_if_witness :
        | .ok g => hasOp "CastLike" g.nodes
        | .error _ => false) = true := by
   constructor <;> decide +kernel
+
+/-! ## The eager calling convention (`OnnxFunction.__call__` → `eval_function`; model: `OV/Model/C01Eager.lean`)
+
+`pyBind` is what CPython does when the *underlying Python function* is called with the caller's positional and
+keyword arguments (the plain-Python reading of a call); `eagerCall` is `tag_arguments_with_signature` +
+the two `_adapt_to_eager_mode` loops of `eval_function` + CPython's binding of `function(*adapted_args,
+**adapted_kwargs)`.  `sigMatch ps qs`: the `op_signature` `script()` derived and `inspect.signature` of the
+Python function describe the same `def` (decided by the driver on every real signature of the tie stream). -/
+section Eager
+open OV.C01.Eager
+
+/-- `tag_arguments_with_signature(sig, args, kwargs, fill_defaults=False)` on **every** call CPython itself would
+accept (any number of positionals ≤ the arity, any keywords naming the other parameters, defaults): it raises
+nothing and pairs each value with exactly the parameter CPython would bind it to — the positional ones in order,
+the keyword ones in *parameter* order, omitted defaulted parameters left to CPython.  (Since 29a1f68 the function
+checks `param.name in kwargs` for positionally given parameters, so distinct parameter names are needed here too.) -/
+theorem eager_tagging_is_python_binding {A} (allowExtra : Bool) (d : SigParam → A) (ps : List SigParam)
+    (qs : List (PyParam A)) (args : List A) (kw env : List (Name × A))
+    (h : sigMatch ps qs = true) (hnd : nodupP ps = true) (hpy : pyBind qs args kw = .ok env) :
+    tagArguments false allowExtra d ps args kw = .ok (tagSpec kw args ps) :=
+  tagArguments_spec allowExtra d ps qs args kw env h hnd hpy
+
+/-- **`eager_is_python`** (DESIGN §5): for every signature (any mix of tensor and attribute parameters, with or
+without defaults), every call — positional, keyword, in any order, defaults omitted — that is defined as a plain
+Python call (`pyBind … = ok env`), every kind of argument value (arrays, Tensors, Python scalars, `None`, nested
+lists / tuples, foreign objects) and either setting of `_ignore_unknown_function_kwargs`: the body of the script
+function starts from exactly the environment CPython would have built, with the value of every *tensor*
+parameter promoted by `_adapt_to_eager_mode` and every attribute value untouched; it raises exactly when one
+of those promotions raises (same exception, the first in parameter order); and `has_array` is "some tensor
+parameter's value contains a numpy array". -/
+theorem eager_is_python {V} (mk : Mk V) (allowExtra : Bool) (ps : List SigParam) (qs : List (PyParam (Arg V)))
+    (args : List (Arg V)) (kw env : List (Name × Arg V))
+    (h : sigMatch ps qs = true) (hnd : nodupP ps = true) (hpy : pyBind qs args kw = .ok env) :
+    eagerCall mk allowExtra ps qs args kw =
+      match adaptEnv mk ps env with
+      | .error e => .error e
+      | .ok env' => .ok (env', flagEnv ps env) :=
+  eagerCall_python mk allowExtra ps qs args kw env h hnd hpy
+
+/-- `def f(A, B, alpha: float = 2.0, k: int = 1)` as `script()` and as CPython see it -/
+def eagerSig : List SigParam :=
+  [⟨"A", true, false, true, false⟩, ⟨"B", true, false, true, false⟩,
+   ⟨"alpha", false, false, false, true⟩, ⟨"k", false, false, false, true⟩]
+def eagerPy : List (PyParam (Arg Nat)) :=
+  [⟨"A", none⟩, ⟨"B", none⟩, ⟨"alpha", some (.flt "2.0")⟩, ⟨"k", some (.int 1)⟩]
+def mkN : Mk Nat := ⟨fun b => if b then 1001 else 1000, fun _ => 2000, fun i => 3000 + i.toNat⟩
+
+/-- non-vacuity of `eager_is_python`: `f(a7, k=5, B=[a8, 3])` — a keyword call out of order with a nested list;
+the hypotheses hold and the body starts from `A = Tensor(7), B = [Tensor(8), Tensor(int64 3)], alpha = 2.0, k = 5` -/
+example : sigMatch eagerSig eagerPy = true ∧ nodupP eagerSig = true
+    ∧ pyBind eagerPy [Arg.arr 7] [("k", .int 5), ("B", .list [.arr 8, .int 3])]
+        = .ok [("A", .arr 7), ("B", .list [.arr 8, .int 3]), ("alpha", .flt "2.0"), ("k", .int 5)]
+    ∧ eagerCall mkN false eagerSig eagerPy [Arg.arr 7] [("k", .int 5), ("B", .list [.arr 8, .int 3])]
+        = .ok ([("A", .ten 7), ("B", .list [.ten 8, .ten 3003]), ("alpha", .flt "2.0"), ("k", .int 5)], true) :=
+  ⟨rfl, rfl, rfl, rfl⟩
+
+/-- The result side of `eval_function`: a value made of arrays, `None`, lists and tuples survives the round trip
+`_adapt_to_user_mode ∘ _adapt_to_eager_mode` unchanged (what a function that returns its argument hands back
+when `has_array` is set), for every nesting depth. -/
+theorem eager_result_roundtrip {V} (mk : Mk V) (x : Arg V) (hx : userVal x = true) :
+    ∃ y, adapt mk x = .ok y ∧ toUser y = .ok x :=
+  toUser_adapt mk x hx
+
+example : userVal (Arg.tuple [.arr 1, .none, .list [.arr 2]] : Arg Nat) = true := rfl
+
+/-- Regression witness of the fixed finding C01-D49 (29a1f68): `f(A, B, 3.0, 2, C)` — a fifth positional argument
+for four parameters — and `f(A, B, A=C)` — a keyword repeating a positional parameter — are `TypeError`s for the
+Python function, and `tag_arguments_with_signature` now raises for both ("Too many positional arguments" / "Got
+multiple values for argument"); before the fix it dropped the surplus value and ran the body on `[1, 2, 3.0, 2]`
+resp. `[1, 2, 2.0, 1]`. -/
+theorem eager_surplus_and_duplicate_refused_witness :
+    pyBind eagerPy [Arg.arr 1, .arr 2, .flt "3.0", .int 2, .arr 3] [] = .error .tooMany
+    ∧ eagerCall mkN false eagerSig eagerPy [Arg.arr 1, .arr 2, .flt "3.0", .int 2, .arr 3] [] = .error .tooMany
+    ∧ pyBind eagerPy [Arg.arr 1, .arr 2] [("A", .arr 3)] = .error .badKw
+    ∧ eagerCall mkN false eagerSig eagerPy [Arg.arr 1, .arr 2] [("A", .arr 3)] = .error .badKw
+    ∧ eagerCall mkN true eagerSig eagerPy [Arg.arr 1, .arr 2] [("A", .arr 3)] = .error .badKw :=
+  ⟨rfl, rfl, rfl, rfl, rfl⟩
+
+/-- **`eager_defined_only_where_python_is`** — the converse of `eager_is_python`, now the full statement (it was
+`…_partial` with the hypotheses "no surplus positionals" and "no keyword repeats a positional" while C01-D49 was
+open; 29a1f68 made `tag_arguments_with_signature` refuse both): with `_ignore_unknown_function_kwargs` off, for every
+signature, every positional / keyword call and every kind of value, if eager mode reaches the body of the script
+function then the call is one CPython accepts for the Python function.  Missing arguments, unknown keywords, surplus
+positionals and repeated parameters are all refused, by `tag_arguments_with_signature` or by CPython's own binding
+of the adapted arguments.  (With the option on, unknown keywords are dropped by design: `eager_refusals_witness`.) -/
+theorem eager_defined_only_where_python_is {V} (mk : Mk V) (ps : List SigParam)
+    (qs : List (PyParam (Arg V))) (args : List (Arg V)) (kw : List (Name × Arg V))
+    (h : sigMatch ps qs = true)
+    (hok : ∃ r, eagerCall mk false ps qs args kw = .ok r) : ∃ env, pyBind qs args kw = .ok env :=
+  eagerCall_ok_python mk ps qs args kw h hok
+
+/-- non-vacuity: `f(a7, k=5, B=[a8, 3])` reaches the body -/
+example : sigMatch eagerSig eagerPy = true
+    ∧ ∃ r, eagerCall mkN false eagerSig eagerPy [Arg.arr 7] [("k", .int 5), ("B", .list [.arr 8, .int 3])] = .ok r :=
+  ⟨rfl, _, rfl⟩
+
+/-- what eager mode does refuse, on the demo signature: a missing tensor argument, an unknown keyword (with
+`_ignore_unknown_function_kwargs` it is dropped before CPython sees it), a `str` / numpy scalar for a tensor parameter — and it does not look at
+attribute values at all (`alpha="x"` reaches the body). -/
+theorem eager_refusals_witness :
+    eagerCall mkN false eagerSig eagerPy [Arg.arr 1] [] = .error .missing
+    ∧ eagerCall mkN false eagerSig eagerPy [Arg.arr 1, .arr 2] [("zeta", .int 1)] = .error .unexpectedKw
+    ∧ eagerCall mkN true eagerSig eagerPy [Arg.arr 1, .arr 2] [("zeta", .int 1)]
+        = .ok ([("A", .ten 1), ("B", .ten 2), ("alpha", .flt "2.0"), ("k", .int 1)], true)
+    ∧ eagerCall mkN false eagerSig eagerPy [Arg.arr 1, .other "str"] [] = .error .badInput
+    ∧ eagerCall mkN false eagerSig eagerPy [Arg.arr 1, .tuple [.arr 2, .other "float32"]] [] = .error .badInput
+    ∧ eagerCall mkN false eagerSig eagerPy [Arg.ten 1, .int 2] [("alpha", .other "str")]
+        = .ok ([("A", .ten 1), ("B", .ten 3002), ("alpha", .other "str"), ("k", .int 1)], false) :=
+  ⟨rfl, rfl, rfl, rfl, rfl, rfl⟩
+
+/-- **Eager entry = the entry of the source semantics** (`evalFunc`): a function whose parameters are all tensors,
+called eagerly with one array per parameter.  `eval_function` reaches the body with an environment that, read as a
+store, is exactly the store `evalFunc S fuel f vs` starts from (`Store.setMany ∅ (tensorParams f.params) (vs.map PV.t)`),
+and `has_array` is set (results come back as arrays) unless there are no parameters.  Together with the
+refinement theorems (`convert_correct_*_partial`: `evalFunc … = some out → evalGraph … = some out`) this is the chain
+eager call → plain-Python meaning of the source → exported graph, all three on the same `vs`. -/
+theorem eager_arrays_entry_is_evalFunc_entry {V} (mk : Mk V) (allowExtra : Bool) (f : Func) (vs : List V)
+    (hall : ∀ p ∈ f.params, ∃ x, p = Param.tensor x) (hnd : (tensorParams f.params).Nodup)
+    (hlen : vs.length = (tensorParams f.params).length) :
+    ∃ env, eagerCall mk allowExtra (f.params.map paramSig) (f.params.map paramPy) (vs.map Arg.arr) []
+        = .ok (env, !vs.isEmpty)
+      ∧ ∀ x, Store.setMany (fun _ => none) (tensorParams f.params) (vs.map PV.t) x =
+          match lk x env with
+          | some (.ten v) => some (PV.t v)
+          | _ => none := by
+  obtain ⟨h1, h2⟩ := params_all_tensor (V := V) f.params hall
+  refine ⟨(tensorParams f.params).zip (vs.map Arg.ten), ?_, ?_⟩
+  · rw [h1, h2]; exact eagerCall_arrays mk allowExtra _ vs hnd hlen
+  · intro x; exact setMany_eq_lk _ vs _ x hnd hlen
+
+/-- non-vacuity: `def f(A, B)` called as `f(a1, a2)` -/
+example : (∀ p ∈ [Param.tensor "A", Param.tensor "B"], ∃ x, p = Param.tensor x)
+    ∧ (tensorParams [Param.tensor "A", Param.tensor "B"]).Nodup
+    ∧ eagerCall mkN false ([Param.tensor "A", Param.tensor "B"].map paramSig)
+        ([Param.tensor "A", Param.tensor "B"].map paramPy) ([1, 2].map Arg.arr) []
+        = .ok ([("A", .ten 1), ("B", .ten 2)], true) :=
+  ⟨by intro p hp; simp at hp; rcases hp with rfl | rfl <;> exact ⟨_, rfl⟩, by decide, rfl⟩
+
+/-! ### `separate_input_attributes_from_arguments` (inputs and attributes of `op.Foo(a, b, k=…)` in `_translate_call_expr`) -/
+
+/-- For every signature without a variadic parameter, every positional / keyword call in which the required
+parameters are given (a required attribute may have a default) and no keyword is unknown (or unknown keywords
+are allowed), `separate_input_attributes_from_arguments(sig, args, kwargs, fill_defaults=False)` returns: one slot
+per input parameter **in signature order** holding the value given positionally or by keyword, `None` for an
+omitted optional input, with the `None`s at the end removed — and the given attributes in signature order.
+(The loop with its `trailing_placeholders` counter = the closed form `trimNone ∘ inputSlots`.) -/
+theorem separate_inputs_attributes_spec {A} (allowExtraKw : Bool) (d : SigParam → A) (ps : List SigParam)
+    (args : List A) (kw : List (Name × A)) (hv : noVariadic ps = true) (hr : requiredGiven kw args 0 ps = true)
+    (hk : kw.any (fun e => !(ps.any (fun p => p.name = e.1))) = false ∨ allowExtraKw = true) :
+    separate false allowExtraKw true d ps args kw
+      = .ok (trimNone (inputSlots kw args 0 ps), attrSlots kw args 0 ps) :=
+  separate_spec allowExtraKw d ps args kw hv hr hk
+
+/-- **An input keeps the position of its parameter** (the ∀ form of the C01-D43 fix b7afd5e): under the hypotheses
+above, if the `j`-th input parameter is given the value `v` (positionally or by keyword), the `j`-th ONNX input of the
+call is `v` — however many optional inputs before it are omitted. -/
+theorem separate_keeps_positions {A} (allowExtraKw : Bool) (d : SigParam → A) (ps : List SigParam)
+    (args : List A) (kw : List (Name × A)) (hv : noVariadic ps = true) (hr : requiredGiven kw args 0 ps = true)
+    (hk : kw.any (fun e => !(ps.any (fun p => p.name = e.1))) = false ∨ allowExtraKw = true)
+    (j : Nat) (v : A) (hj : (inputSlots kw args 0 ps)[j]? = some (some v)) :
+    ∃ ins attrs, separate false allowExtraKw true d ps args kw = .ok (ins, attrs) ∧ ins[j]? = some (some v) :=
+  ⟨_, _, separate_spec allowExtraKw d ps args kw hv hr hk, trimNone_get _ j v hj⟩
+
+/-- **Variadic signatures** (`Sum`, `Max`, `Concat`, …: one variadic input `p` between a non-variadic prefix `pre` and a
+non-variadic rest `post`): the variadic parameter takes every positional argument from its own index on, the
+parameters after it can only be given by keyword, and the result is again the closed form — the slots of `pre`, the
+variadic values, the slots of `post`, trailing placeholders dropped; for either value of `allow_extra_args`. -/
+theorem separate_variadic_spec {A} (allowExtraKw allowExtraArgs : Bool) (d : SigParam → A) (pre post : List SigParam)
+    (p : SigParam) (args : List A) (kw : List (Name × A)) (hp : (p.isInput && p.variadic) = true)
+    (hpre : noVariadic pre = true) (hpost : noVariadic post = true)
+    (hr1 : requiredGiven kw args 0 pre = true) (hr2 : requiredGiven kw [] (pre.length + 1) post = true)
+    (hk : kw.any (fun e => !((pre ++ p :: post).any (fun q => q.name = e.1))) = false ∨ allowExtraKw = true) :
+    separate false allowExtraKw allowExtraArgs d (pre ++ p :: post) args kw =
+      .ok (trimNone (inputSlots kw args 0 pre ++ (args.drop pre.length).map some
+              ++ inputSlots kw [] (pre.length + 1) post),
+           attrSlots kw args 0 pre ++ attrSlots kw [] (pre.length + 1) post) :=
+  separate_variadic allowExtraKw allowExtraArgs d pre post p args kw hp hpre hpost hr1 hr2 hk
+
+/-- non-vacuity: `op.Concat(a, b, axis=1)` (`Concat(inputs…, axis)`) -/
+example : let p : SigParam := ⟨"inputs", true, true, true, false⟩
+    let post : List SigParam := [⟨"axis", false, false, true, false⟩]
+    (p.isInput && p.variadic) = true ∧ noVariadic post = true ∧ requiredGiven [("axis", "1")] ([] : List String) 1 post = true
+    ∧ separate false false false (fun _ => "") ([] ++ p :: post) ["a", "b"] [("axis", "1")]
+        = .ok ([some "a", some "b"], [("axis", "1")]) :=
+  ⟨rfl, rfl, rfl, rfl⟩
+
+/-- `Clip(input, min?, max?)` and `Sum(data_0, …)` as signatures -/
+def clipSig : List SigParam :=
+  [⟨"input", true, false, true, false⟩, ⟨"min", true, false, false, false⟩, ⟨"max", true, false, false, false⟩]
+def sumSig : List SigParam := [⟨"data_0", true, true, true, false⟩]
+
+/-- non-vacuity and regression witnesses: `op.Clip(x, max=hi)` is `Clip(x, None, hi)` (C01-D43), `op.Clip(x)` and
+`op.Clip(x, min=lo)` drop the trailing placeholders, a variadic parameter takes all remaining positionals, a missing
+required input and an unknown keyword are `TypeError`s, surplus positionals are dropped unless `allow_extra_args=False`. -/
+theorem separate_witnesses :
+    noVariadic clipSig = true ∧ requiredGiven [("max", "hi")] ["x"] 0 clipSig = true
+    ∧ separate false false true (fun _ => "") clipSig ["x"] [("max", "hi")] = .ok ([some "x", none, some "hi"], [])
+    ∧ separate false false true (fun _ => "") clipSig ["x"] [] = .ok ([some "x"], [])
+    ∧ separate false false true (fun _ => "") clipSig ["x"] [("min", "lo")] = .ok ([some "x", some "lo"], [])
+    ∧ separate false false true (fun _ => "") sumSig ["a", "b", "c"] [] = .ok ([some "a", some "b", some "c"], [])
+    ∧ separate false false true (fun _ => "") clipSig [] [("max", "hi")] = .error .missing
+    ∧ separate false false true (fun _ => "") clipSig ["x"] [("mx", "hi")] = .error .unexpectedKw
+    ∧ separate false false true (fun _ => "") clipSig ["x", "lo", "hi", "extra"] [] = .ok ([some "x", some "lo", some "hi"], [])
+    ∧ separate false false false (fun _ => "") clipSig ["x", "lo", "hi", "extra"] [] = .error .tooMany := by
+  refine ⟨rfl, rfl, rfl, rfl, rfl, rfl, rfl, rfl, rfl, rfl⟩
+
+end Eager
 
 end OV.Props.C01
